@@ -51,6 +51,24 @@ CLAIMED["C06"] = (
     "reads the key",
     "two clauses of C06; probe sequences, tombstone reuse, resize and iteration are value-level and not decided",
     "DESIGN.md section 4 C06, section 3 R-TAINT-S / R-VARIANT")
+CLAIMED["C15"] = (
+    "interprocedural MIR taint analysis (untrusted buffers / integers with source sites, flow-sensitive reaching "
+    "definitions, callee summaries, type-based struct-field registry) with dominating-guard discharge: R-ALLOC, R-GUARD, R-PANIC",
+    "static rule over the closure of ~200 parser entry points: every allocation size, bounds-checked index, slice range, "
+    "unsafe pointer/length operand and unwrap that derives from untrusted bytes must be dominated by a deciding comparison "
+    "against a trusted bound (refusing on the large side), clamped by a trusted value, or narrow by type",
+    "four structural clauses of C15; guard shape is checked, guard arithmetic is not; loop termination and bomb "
+    "amplification are not decided; container contents are tracked only through insert/push of scalars and named struct fields",
+    "DESIGN.md section 4 C15, section 3 R-GUARD/R-ALLOC")
+CLAIMED["C19"] = (
+    "MIR must-precede / must-pass-through analysis over resolved callees (R-ORDER), open-time size-guard rule (R-GUARD.open) "
+    "and the taint analysis with header fields as untrusted integers",
+    "static rules: growth persists capacity only after File::set_len and remap; writers sync before returning Ok; "
+    "MmapVec::open compares the header's capacity with the file length before Ok; loaders never size or index from header "
+    "fields unchecked",
+    "three structural clauses of C19; which sync point a torn file reopens to and content equality are not decided; the "
+    "(function, event A, event B) table is frozen in props/C19.py",
+    "DESIGN.md section 4 C19, section 3 R-ORDER")
 NA = {
     "C11": "sortedness/permutation/multiset equality of loops over data for all inputs and configurations is value-level; no structural clause is a necessary condition short of the result itself",
     "C12": "lexicographic order of all suffixes, exact LCP and search ranges are value-level for every construction algorithm",
